@@ -152,7 +152,7 @@ def build_fail(st, r):
     fresh = [n for n in ["f1", "f2", "f3", "f4"] if n not in names and n not in m.undefined_mentions()]
     fa = fresh[0] if fresh else "zz1"
     fb = fresh[1] if len(fresh) > 1 else "zz2"
-    k = r.randrange(12)
+    k = gen.choice(r, [0, 1, 1, 1, 2, 3, 4, 5, 6, 7, 8, 9, 10, 10, 11])
     real_named = [x for x in m.recs if M.name_of(x) is not None and not (version == "gfa1" and x.rt in "LC")]
     if k == 0 and real_named:
         nm = M.name_of(gen.choice(r, real_named))
@@ -163,17 +163,29 @@ def build_fail(st, r):
                                   "G\t%s\t%s+\t%s-\t5\t*" % (nm, fa, fb)])
         return ["fail", "add", text, "duplicate_id"]
     if k == 1 and version == "gfa2" and real_named:
-        tgt = gen.choice(r, real_named)
+        groups = [x for x in real_named if x.rt in "OU" and len(x.tags) >= 1]
+        rich = [x for x in groups if len(x.tags) >= 2]
+        tgt = gen.choice(r, rich) if rich and gen.chance(r, 0.7) else (
+            gen.choice(r, groups) if groups and gen.chance(r, 0.6) else gen.choice(r, real_named))
         nm = M.name_of(tgt)
         kind = gen.choice(r, "OU")
         if tgt.rt == kind:
-            # same kind: a legal merge unless a tag contradicts
-            have = [t for t in tgt.tags if t[1] == "i"]
-            if not have:
+            # same kind: a legal merge unless a tag contradicts; any of the tags may be the
+            # contradicted one, the others are repeated unchanged or omitted
+            if not tgt.tags:
                 return None
-            n_, t_, v_ = have[0]
+            j = r.randrange(len(tgt.tags))
+            out = []
+            for i_, (n_, t_, v_) in enumerate(tgt.tags):
+                if i_ == j:
+                    other = {"i": str(int(v_) + 1) if t_ == "i" else "", "Z": v_ + "x", "A": "b" if v_ != "b" else "c",
+                             "f": "123.25" if v_ != "123.25" else "5.5", "J": '["other"]' if v_ != '["other"]' else "[]",
+                             "H": "AB" if v_ != "AB" else "CD", "B": "c,9" if v_ != "c,9" else "c,8"}[t_]
+                    out.append("%s:%s:%s" % (n_, t_, other))
+                elif gen.chance(r, 0.4):
+                    out.append("%s:%s:%s" % (n_, t_, v_))
             items = (fa + "+ " + fb + "-") if kind == "O" else (fa + " " + fb)
-            return ["fail", "add", "%s\t%s\t%s\t%s:i:%d" % (kind, nm, items, n_, int(v_) + 1), "group_tag_conflict"]
+            return ["fail", "add", "\t".join([kind, nm, items] + out), "group_tag_conflict"]
         items = (fa + "+") if kind == "O" else fa
         return ["fail", "add", "%s\t%s\t%s\txx:i:1\tab:Z:q" % (kind, nm, items), "group_named_like_other"]
     if k == 2 and version == "gfa1":
@@ -219,7 +231,9 @@ def build_fail(st, r):
             return None
         return ["fail", "add_connected", G.Rec.from_plain(line, version).text(), "connected_instance"]
     if k == 10:
-        return ["fail", "header", "H\tzy:i:1\tzx:Z:ok\t" + gen.choice(r, ["VN:Z:9.9", "TS:i:77"]), "header_conflict"]
+        # zx is already multi-valued, zv single-valued, zy new: all three must be taken back
+        pre = gen.choice(r, ["zy:i:1\tzx:Z:ok", "zx:Z:third", "zv:i:8\tzx:Z:more", "zy:i:1"])
+        return ["fail", "header", "H\t" + pre + "\t" + gen.choice(r, ["VN:Z:9.9", "TS:i:77"]), "header_conflict"]
     return ["fail", "header", "H\tzw:i:5\tzx:i:3", "header_datatype_clash"]
 
 
@@ -243,7 +257,8 @@ def gen_case(r, version):
                 st_.ov_policy[M.ends_key(*rec.pos[:4])] = "*" if rec.pos[4] == "*" else "spec"
         ops.append(["load", doc["lines"]])
     # header lines which make header conflicts possible
-    ops.append(["header_ok", "H\tVN:Z:%s\tTS:i:5\tzx:Z:first" % ("1.0" if version == "gfa1" else "2.0")])
+    ops.append(["header_ok", "H\tVN:Z:%s\tTS:i:5\tzx:Z:first\tzv:i:7" % ("1.0" if version == "gfa1" else "2.0")])
+    ops.append(["header_ok", "H\tzx:Z:second"])
     for _ in range(r.randint(3, 14)):
         if gen.chance(r, 0.55):
             f = build_fail(st_, r)
